@@ -63,6 +63,9 @@ func (x *Exec) execInstr(fr *Frame, b *ssa.BasicBlock, ins ssa.Instruction, st *
 		loc := &Loc{Prefix: canonPrefix(pt), Root: r, T: pt}
 		x.zeroStore(st, loc)
 		fr.env[i] = Value{T: i.Type(), K: KPtr, Loc: loc}
+		if typeKey(pt) == "big.Int" && x.m() == ModeInt {
+			x.bigSet(st, fr.env[i], IntLit(0)) // new(big.Int) is zero
+		}
 	case *ssa.Store:
 		a := x.get(fr, st, i.Addr)
 		v := x.get(fr, st, i.Val)
@@ -460,7 +463,30 @@ func (x *Exec) binop(fr *Frame, st *State, i *ssa.BinOp) Value {
 			return Value{K: KScalar, X: raw}
 		}
 	}
-	r, err := m.binop(i.Op, a.X, b.X, it, x.bitInfo(i.X), x.bitInfo(i.Y))
+	bx, by := x.bitInfo(i.X), x.bitInfo(i.Y)
+	if m == ModeInt && (i.Op == token.OR || i.Op == token.XOR) && !it.Signed && it.W > 16 {
+		_, la := litValue(a.X)
+		_, lb := litValue(b.X)
+		if !la && !lb && !(bx.MaxBits <= by.LowZero || by.MaxBits <= bx.LowZero) {
+			// a|b == a+b when the operands occupy disjoint bit ranges; where that is not evident
+			// from the syntax it becomes a side obligation (the lowering is exact only if it holds)
+			var side *Term
+			switch {
+			case bx.LowZero > 0:
+				side = iLt(b.X, IntLitBig(pow2(bx.LowZero)))
+				by.MaxBits = bx.LowZero
+			case by.LowZero > 0:
+				side = iLt(a.X, IntLitBig(pow2(by.LowZero)))
+				bx.MaxBits = by.LowZero
+			}
+			if side != nil {
+				o := x.vc.oblige("bits", Implies(st.Reach, side), x.posOf(fr.fn, i.Pos()), "operands of "+i.Op.String()+" occupy disjoint bits (needed to lower the bit operation exactly in mode int)")
+				o.Clause = "disjoint bits"
+				x.vc.assume(Implies(st.Reach, side))
+			}
+		}
+	}
+	r, err := m.binop(i.Op, a.X, b.X, it, bx, by)
 	if err != nil {
 		unsupported("%v at %s", err, x.posOf(fr.fn, i.Pos()))
 	}
